@@ -743,6 +743,8 @@ class Interp:
             if key not in self.ctx.ghost:
                 self.ctx.ghost[key] = SOpaque(f"{v.name}.{name}")
             return self.ctx.ghost[key]
+        if getattr(v, "kind", None) == "mappeddict" and name in ("items", "get") and self.codec is not None:
+            return SBuiltinMethod(v, name)
         raise Unsupported(f"getattr {v!r}.{name}")
 
     def obj_getattr(self, o, name, node=None):
@@ -750,6 +752,8 @@ class Interp:
             return o.fields[name]
         if self.codec is not None and name == "write" and o is not self.codec.root and o.live is None:
             return SCodecWrite(o)  # nested serializable object: modular (no split over its classes)
+        if self.codec is not None and self.codec.json and name == "serialize" and o is not self.codec.root and o.live is None:
+            return SCodecWrite(o)
         if name == "__class__":
             if len(o.cands) == 1:
                 return SFunc(o.cands[0])
@@ -860,6 +864,10 @@ class Interp:
             from .builtins_model import call_builtin
 
             return call_builtin(self, live, args, kwargs, node)
+        if isinstance(f, SCodecWrite) and self.codec is not None and self.codec.json:
+            from .codec import SJsonTok
+
+            return SJsonTok(f.obj, list(args))
         if isinstance(f, SCodecWrite):
             from .codec import SBuf
 
@@ -918,6 +926,8 @@ class Interp:
 
         cd = self.codec
         name = live.__name__
+        if cd.json:
+            return self.codec_call_json(live, qn, args, kwargs)
         if name == "write" and len(args) >= 2 and isinstance(args[1], SBuf) and isinstance(args[0], SObj):
             if args[0] is cd.root and not cd.root_write_started:
                 cd.root_write_started = True
@@ -947,6 +957,37 @@ class Interp:
                     from .codec import LayoutMismatch
 
                     raise PyExc(LayoutMismatch, None, f"{args[0].live.__name__}.read applied to the tokens of {o.cands[0].__name__}", "")
+                if len(keep) != len(o.cands):
+                    self.ctx.oblige("codec/nested-class-matches-reader", z3.BoolVal(False), kind="codec", where=qn)
+            return o
+        return None
+
+    def codec_call_json(self, live, qn, args, kwargs):
+        """JSON round trip: serialize() of a nested object is an opaque token, the matching deserialize
+        (a `deserialize` classmethod or a registered nested reader such as deserialize_type) returns the
+        object the token stands for"""
+        from .codec import SJsonTok, LayoutMismatch
+
+        cd = self.codec
+        name = live.__name__
+        if name == "serialize" and args and isinstance(args[0], SObj):
+            if args[0] is cd.root and not cd.root_write_started:
+                cd.root_write_started = True
+                return None
+            return SJsonTok(args[0], list(args[1:]))
+        is_reader = name == "deserialize" or qn in cd.nested_readers
+        if is_reader:
+            tok = next((a for a in args if isinstance(a, SJsonTok)), None)
+            if name == "deserialize" and not cd.root_read_started and tok is None:
+                cd.root_read_started = True
+                return None
+            if tok is None:
+                raise PyExc(LayoutMismatch, None, f"nested reader {qn} applied to a value that is not the output of a nested serialize()", "")
+            o = tok.obj
+            if name == "deserialize" and args and isinstance(args[0], SFunc) and isinstance(args[0].live, type) and isinstance(o, SObj):
+                keep = [k for k in o.cands if issubclass(k, args[0].live)]
+                if not keep:
+                    raise PyExc(LayoutMismatch, None, f"{args[0].live.__name__}.deserialize applied to the output of {o.cands[0].__name__}.serialize", "")
                 if len(keep) != len(o.cands):
                     self.ctx.oblige("codec/nested-class-matches-reader", z3.BoolVal(False), kind="codec", where=qn)
             return o
